@@ -44,6 +44,8 @@ def shape_case(rng, shape, k, mode, dll='j1939-21'):
                         loss=lambda n, src, dst, fr: (mode == 'lose' and n == k) or (mode.startswith('silent') and n >= k and (dst == silent['who'] or src == silent['who'])))
     silent['who'] = 0 if mode == 'silent0' else 1
     data = rand_payload(rng, size)
+    # the stacks have been idle for a while: their threads sleep (the application's call has to wake them)
+    sc.net.run(rng.choice([1000, 300000]))
     t0 = sc.w.now
     sc.send(0, 0, 254 if bam else 208, 1 if bam else sc.addrs[1], 6, data)
     sc.net.run(9_000_000 if fd else 6_000_000, stop=lambda: sc.tables_empty() and sc.net.quiet())
@@ -90,6 +92,26 @@ def shape_case(rng, shape, k, mode, dll='j1939-21'):
         sent_eoms = any(s_ == 0 and ((cid >> 16) & 0xFF) == 0x4D and d and d[0] & 15 == 2 for (t, s_, cid, d, fd_) in sc.net.bus)
         if not (acked or told or own_abort or sent_eoms):
             bad.append("the originator stopped waiting for a CTS and dropped its connection-mode session without any connection abort on the bus")
+    if not bam and not bad and not got:
+        # the responder likewise: once it has answered the RTS with a CTS it waits for data packets; it stops doing so because the
+        # originator's abort reached it, or it says so itself with a connection abort (or it completed and acknowledged)
+        def reached1(n, src):
+            if src == 1:
+                return False
+            if mode == 'lose':
+                return n != k
+            return not (n >= k and (silent['who'] in (1, src)))
+        def is_cts(cid, d):
+            pf = (cid >> 16) & 0xFF
+            return bool(d) and ((pf == TP_CM and d[0] == 17) or (pf == 0x4D and d[0] & 15 == 1))
+        def is_ack(cid, d):
+            pf = (cid >> 16) & 0xFF
+            return bool(d) and ((pf == TP_CM and d[0] == 19) or (pf == 0x4D and d[0] & 15 == 3))
+        opened = any(s_ == 1 and is_cts(cid, d) for (t, s_, cid, d, fd_) in sc.net.bus)
+        r_done = any(s_ == 1 and (is_ack(cid, d) or is_abort(cid, d)) for (t, s_, cid, d, fd_) in sc.net.bus)
+        r_told = any(reached1(n, s_) and is_abort(cid, d) for n, (t, s_, cid, d, fd_) in enumerate(sc.net.bus))
+        if opened and not (r_done or r_told):
+            bad.append("the responder stopped waiting for data packets and dropped its connection-mode session without any connection abort on the bus")
     if sc.net.errors:
         bad.append(f"exception {sc.net.errors[0]}")
     # follow-up on the same pair
@@ -112,6 +134,7 @@ def giveup_time_case(rng):
     window = rng.choice([1, 2, 255])
     sc = net21.Scenario(C.REPO, rng.getrandbits(32), 1, maxcmdt=[window], addrs=[0x21])
     bad = []
+    sc.net.run(rng.choice([1000, 300000]))       # an idle stack: its thread sleeps
     t0 = sc.w.now
     sc.send(0, 0, 208, 0x55, 6, rand_payload(rng, 30))
     sc.net.run(3_000_000, stop=lambda: sc.tables_empty())
@@ -123,6 +146,7 @@ def giveup_time_case(rng):
         bad.append(f"no TP.Conn_Abort(reason 3) when the originator stopped waiting for a CTS: {aborts}")
     # responder side: RTS arrives, then silence
     sc2 = net21.Scenario(C.REPO, rng.getrandbits(32), 1, maxcmdt=[window], addrs=[0x21])
+    sc2.net.run(rng.choice([1000, 300000]))
     t0 = sc2.w.now
     sc2.net.inject(0, (7 << 26) | (TP_CM << 16) | (0x21 << 8) | 0x55, [16, 30, 0, 5, 255, 0, 0xD0, 0], 0)
     sc2.net.run(3_000_000, stop=lambda: sc2.tables_empty() and sc2.net.quiet() and sc2.w.now > t0)
@@ -175,7 +199,7 @@ def oracle(ctx, full):
                      "segments) x loss of the k-th bus frame / silence of either side from the k-th frame, for every k (thorough: all of them; "
                      "quick: 90 sampled): receiver gets exact payload or nothing, J1939-21 aborts carry reason 3 and the PGN, both session tables "
                      "empty no later than the longest timeout (1.25 s; J1939-22: 3 s) after the last frame other than an abort on the bus, follow-up on the same pair "
-                     "delivered; a connection-mode originator never stops waiting for a CTS silently (it was acknowledged, aborted by the peer, "
+                     "delivered; a connection-mode responder that answered the RTS never stops waiting for data silently (it acknowledged, was aborted by the originator or aborts itself); a connection-mode originator never stops waiting for a CTS silently (it was acknowledged, aborted by the peer, "
                      "aborts itself, or — J1939-22 — had sent its end-of-message status); plus give-up time <= 1.25 s and abort presence with a "
                      "silent peer on either side")
 
